@@ -202,9 +202,9 @@ prop('C05', 'Each option performs only its documented rewrite, only where it is 
                  '(per option, never in dataclass/NamedTuple/TypedDict), posargs; and minify() runs each stage exactly under its own option. Level "other": one open known finding (KF-18: a field declared inside a block of a dataclass body) is outside what the per-node contract can see.')
 
 
-def sweep(only, tier, label):
+def sweep(only, tier, label, extra=()):
     return Task('standin.rename_sweep.' + label, 'contracts.printer:task_standin', standin='rename sweep', script='rename_sweep.py',
-                args=['--only', only, '--random', '40' if tier == 'quick' else '400'],
+                args=['--only', only, '--random', '40' if tier == 'quick' else '400'] + list(extra),
                 bound='%s runnable programs over scope shapes (hand-written pool, every literal kind x use count, seeded random functions) x 9 option sets, '
                       'preserve lists and taint triggers; oracles: %s' % ('~230' if tier == 'quick' else '~600', only))
 
@@ -212,7 +212,7 @@ def sweep(only, tier, label):
 def renamer_tasks(tier):
     ts = [Task('scopes.add_parent', 'contracts.scopes:task_add_parent'), Task('scopes.arguments', 'contracts.scopes:task_arguments'),
           Task('scopes.namedexpr', 'contracts.scopes:task_namedexpr')]
-    for t in ('arg_rename_in_place', 'namebinding_init', 'binder_get_binding', 'resolve_get_binding', 'namebinding_rename', 'name_assigner', 'reservation_scope', 'allow_rename',
+    for t in ('arg_rename_in_place', 'namebinding_init', 'binder_get_binding', 'resolve_get_binding', 'resolve_names', 'namebinding_rename', 'name_assigner', 'reservation_scope', 'allow_rename',
               'taint_alias'):
         ts.append(Task('renamer.' + t, 'contracts.renamer:task_' + t))
     for t in ('hoist_visitors', 'hoisted_value', 'insert', 'placement', 'cost_model'):
@@ -225,7 +225,7 @@ def renamer_tasks(tier):
 REN_TRUST = ['scoping table spec_scope (language reference 4.2, 6.2.4, PEP 572), hand-written', 'recursive calls and callee functions used by contract '
              '(each verified as its own function under contract)', 'CPython symtable conformance of the scoping table is only cross-checked boundedly (rename sweep)']
 
-prop('C03', 'Renaming preserves which binding every name refers to', 'other', lambda tier: renamer_tasks(tier) + [sweep('compile,behaviour:rename', tier, 'C03')],
+prop('C03', 'Renaming preserves which binding every name refers to', 'proof', lambda tier: renamer_tasks(tier) + [sweep('compile,behaviour:rename', tier, 'C03')],
      ['C03/', 'C04/NameAssigner', 'C04/util.arg_rename_in_place', 'C09/resolve_names'], replay='props.replay_rename:replay_rename', trusted=REN_TRUST,
      explanation='(a) mapper.add_parent and its helpers: for a symbolic node of every class the namespace passed for every child equals the scoping table '
                  '(enclosing vs own namespace, first comprehension iterable, walrus targets, annotations of every parameter kind). (b) resolve_names.'
@@ -233,7 +233,12 @@ prop('C03', 'Renaming preserves which binding every name refers to', 'other', la
                  '(c) NameAssigner.__call__ for an arbitrary binding: reserved names are blocked in the whole reservation scope first, a rename uses exactly '
                  'the name available_name found free in that scope, the name in use afterwards is blocked; is_available implies freedom in every namespace of '
                  'the scope; NameBinding.rename writes exactly the name slot of each reference class and only the own positions of global/nonlocal statements. '
-                 'Level "other": reservation_scope and the symtable conformance of the table are covered by the bounded sweep only.')
+                 '(d) resolve_names for a symbolic node of every class: reads are attached to get_binding(id, namespace) and to nothing else, binders of '
+                 'names shared with the outside to the binding of the name they bind; a name bound directly in a class body pins its binding and the '
+                 'module-level binding of the same name (class-body lookup goes class -> globals). (e) reservation_scope: inductive per-iteration '
+                 'contract of the namespace-chain walk (every namespace between a reference and the binding is in the scope, whatever its class); '
+                 'reserve_name and available_name against the same scope. The proof is relative to the hand-written scoping table (trusted); its '
+                 'conformance with CPython symtable is only sampled by the bounded sweep.')
 prop('C04', 'Externally visible names are never changed', 'proof', lambda tier: renamer_tasks(tier) + [sweep('interface', tier, 'C04')],
      ['C04/'], replay='props.replay_rename:replay_rename', trusted=REN_TRUST,
      explanation='arg_rename_in_place is true exactly for self/cls-like first parameters of plain or @classmethod methods, star parameters and positional-only '
@@ -307,7 +312,7 @@ def c01_tasks(tier):
         if nm not in seen:
             seen.add(nm)
             ts.append(Task(nm, 'contracts.printer:task_visit', receiver=rec, tag=tag, method=meth))
-    ts.append(sweep('compile,behaviour', tier, 'C01'))
+    ts.append(sweep('compile,behaviour', tier, 'C01', extra=['--safe-only']))
     return ts
 
 
